@@ -199,7 +199,7 @@ def run(ctx: Any) -> None:
                 "C30_transparent_single", "C30_transparent_request", "C30_transparent_cycle_partial", "C30_transparent_stream_partial",
                 "C30_below_threshold_untouched",
             ],
-            "T_ExtStore": ["C30_source_constants", "C30_source_never_hand_corrupt"],
+            "T_ExtStore": ["C30_source_constants", "C30_source_never_hand_corrupt", "C30_source_transparent_cycle"],
             "R_C30": ["C30_exception_after_data_refuted", "C30_request_pointer_unpinned", "C30_logs_before_rejection_dispatched"],
         },
     )
@@ -213,6 +213,11 @@ def run(ctx: Any) -> None:
 
     quick = ctx.tier == "quick"
     rng = ctx.rng
+    # shape of maybe_externalize_collector in the tree under test (regenerated): does the external object hold the whole cycle?
+    try:
+        ser_all = "gen_collector_serializes_all : bool := true" in (ctx.bdir / "gen" / "G_ExtStore.v").read_text()
+    except OSError:
+        ser_all = True
     store = Store()
     cfgs: list[Any] = []
 
@@ -267,7 +272,7 @@ def run(ctx: Any) -> None:
             wire = [D.abs_batch(b, cm) for b, cm in bl]
             url = (store.base_url + "/download/" + bid).encode() if bid else b""
             add_case(
-                f"(CExtColl {D.c_cfg(storage, thr, comp)} {D.c_bytes(url)} {D.c_tab(tab)} {D.schema_id(schema)} {D.c_list([D.c_batch(b) for b in cyc_abs])} {D.c_opt(None if dsize is None else str(dsize))})",
+                f"(CExtColl {'true' if ser_all else 'false'} {D.c_cfg(storage, thr, comp)} {D.c_bytes(url)} {D.c_tab(tab)} {D.schema_id(schema)} {D.c_list([D.c_batch(b) for b in cyc_abs])} {D.c_opt(None if dsize is None else str(dsize))})",
                 D.c_result(wire, up, [], ("none",)),
                 {"op": "collector", "cycle": cyc, "threshold": thr, "compression": comp, "storage": storage, "dsize": dsize},
             )
@@ -283,11 +288,13 @@ def run(ctx: Any) -> None:
                 ctx.violation("collector-inline-batches-altered", "batches below threshold were changed", repl)
             if bid is not None:
                 pm = dict(wire[0]["meta"] or [])
-                if len(wire) != 1 or wire[0]["rows"] != 0 or pm.get(D.K_SHA) != hashlib.sha256(raw).hexdigest().encode() or up["items"] != cyc_abs:
+                di = next(k for k, c in enumerate(cyc) if c[0] == "data")
+                head, tail = (cyc_abs, []) if ser_all else (cyc_abs[: di + 1], cyc_abs[di + 1:])
+                if wire[1:] != tail or wire[0]["rows"] != 0 or pm.get(D.K_SHA) != hashlib.sha256(raw).hexdigest().encode() or up["items"] != head:
                     ctx.violation("collector-object-not-the-cycle", "pointer digest / uploaded stream do not describe the cycle", {**repl, "wire": repr(wire)[:400]})
                 if ext_bytes != len(raw):
                     ctx.violation("collector-external-bytes-misreported", f"reported {ext_bytes}, raw IPC is {len(raw)}", repl)
-                objects.append({"schema": schema, "cycle": cyc, "abs": cyc_abs, "ptr": bl[0], "bid": bid, "raw": raw, "comp": comp, "stored": store.blobs.get(bid)})
+                objects.append({"schema": schema, "cycle": cyc[: len(head)], "abs": head, "ptr": bl[0], "bid": bid, "raw": raw, "comp": comp, "stored": store.blobs.get(bid)})
 
         n_b = 40 if quick else 400
         for i in range(n_b):
@@ -485,7 +492,19 @@ def run(ctx: Any) -> None:
                                 "inline_trace": base, "externalised_trace": ev, "objects_uploaded": externalised}
                         exc_err = ["error", "EXCEPTION", "app-raised-after-emit"]
                         strict_prefix = len(pe["values"]) < len(pb["values"]) and pb["values"][: len(pe["values"])] == pe["values"]
-                        if exc_after and pe["logs"] == pb["logs"] and strict_prefix and pe["terminal"] == exc_err and pb["terminal"] in (None, exc_err):
+                        post_msgs = {l[1] for st in prog.get("steps", []) for l in st["post"]}
+
+                        def strip(logs: list[Any]) -> list[Any]:
+                            return [l for l in logs if l[1] not in post_msgs]
+
+                        if (tname == "http" and script[0] == "exchange" and pb["terminal"] is None and strip(pe["logs"]) == strip(pb["logs"]) and len(pe["logs"]) > len(pb["logs"])
+                                and pe["values"] == pb["values"][: len(pe["values"])] and (pe["terminal"] is None or pe["terminal"][2] in post_msgs)):
+                            ctx.violation(
+                                "http-exchange-batches-after-the-data-batch-reach-the-client-only-when-externalised",
+                                "over HTTP an exchange response is read up to its data batch: logs (and an EXCEPTION-level log) the method emits after the data batch "
+                                "are dropped inline, but are dispatched (and raised) when the cycle is externalised, because the whole cycle sits in the external object",
+                                repl)
+                        elif exc_after and pe["logs"] == pb["logs"] and strict_prefix and pe["terminal"] == exc_err and pb["terminal"] in (None, exc_err):
                             ctx.violation(
                                 "exception-log-after-data-drops-the-externalised-batch",
                                 "a cycle that emits a data batch and then an EXCEPTION-level client log delivers the batch and then the error inline, "
@@ -542,7 +561,6 @@ def run(ctx: Any) -> None:
                         ctx.tally("e2e_fault", mname)
                         ctx.case(["e2e-fault", mname, comp, tname, script], nontrivial=True)
                         pe = proj(ev)
-                        genuine = {("batch", 5, 0), ("batch", 7, 1)}
                         bad_vals = [v for v in pe["values"] if v[0] == "result" or (v[0] == "batch" and v[1] > 0)]
                         # under this storage nothing that was externalised may be delivered at all: every fetch is corrupt;
                         # "substitute" replaces by a valid same-schema object, which a digest-carrying pointer must refuse too
